@@ -77,6 +77,8 @@ pub struct ShapeBucket {
     pub status_rate: (u64, u64),
     pub latency_max_ms: u64,
     pub faults_left: u64,
+    /// a listing body that arrives complete, but whose second half comes this many ms after the first
+    pub stall_ms: u64,
 }
 
 pub fn chunk_name(volume_start_ms: i64, seq: usize) -> String {
@@ -100,6 +102,11 @@ impl Backend for ShapeBucket {
             plan.down_ms = core.tape.draw(self.latency_max_ms + 1);
             core.ctx.count("fault.latency");
         }
+        if self.stall_ms > 0 && core.tape.draw(12) == 11 {
+            // complete and well-formed, just slow: two frames, the second one late
+            plan.body = s3sim::BodyPlan { cut_at: None, frame: 200, frame_delay_ms: self.stall_ms };
+            core.ctx.count("fault.stalled_body");
+        }
         plan
     }
 
@@ -117,7 +124,8 @@ impl Backend for ShapeBucket {
             core.ctx.ev("fault", &[req.seq, status as u64], || format!("HTTP {} on {}", status, req.url));
             return s3sim::status_reply(status, None);
         }
-        match &req.kind {
+        let kind = req.kind.without_delimiter();
+        match &kind {
             ReqKind::List { prefix, max_keys } if req.host == s3sim::REALTIME_HOST => {
                 let max = max_keys.unwrap_or(1000);
                 let mut objects = Vec::new();
@@ -243,7 +251,7 @@ impl Check for C15 {
         // ---- the case(s): one discovery, or several concurrent ones (section 3)
         let concurrent = p.section == 3;
         let faults = p.section == 2;
-        let mut draw_production = |tape: &mut Tape| -> Shape {
+        let draw_production = |tape: &mut Tape| -> Shape {
             // seeded production-size shape, biased to the edges
             let pp = match tape.weighted(&[4, 1, 1, 1, 1, 1]) {
                 0 => tape.range(1, 999) as usize,
@@ -290,10 +298,11 @@ impl Check for C15 {
             });
         }
         let (fail_rate, status_rate, mut latency_max_ms, budget) = if faults {
-            ((tape.draw(3), 150), (tape.draw(3), 150), tape.draw(3) * 700, 1 + tape.draw(3))
+            ((tape.draw(3), 150), (tape.draw(3), 150), [0u64, 700, 1400, 20_000][tape.draw(4) as usize], 1 + tape.draw(3))
         } else {
             ((0, 1), (0, 1), 0, 0)
         };
+        let stall_ms = if faults && tape.draw(3) == 2 { [6_000u64, 35_000, 90_000][tape.draw(3) as usize] } else { 0 };
         if concurrent {
             // latency makes the discoveries interleave at their await points
             latency_max_ms = 1 + tape.draw(300);
@@ -316,7 +325,7 @@ impl Check for C15 {
             |core| {
                 core.skew_before_ms = skew_ms;
                 core.skew_after_ms = skew_ms;
-                ShapeBucket { sites: sites2, fail_rate, status_rate, latency_max_ms, faults_left: budget }
+                ShapeBucket { sites: sites2, fail_rate, status_rate, latency_max_ms, faults_left: budget, stall_ms }
             },
             |world, rt| {
                 let rs: Vec<Result<(Option<usize>, usize), String>> = rt.block_on(async {
